@@ -1,3 +1,4 @@
+import _pickle
 import pickle
 
 import fickling.hook as hook
@@ -15,11 +16,14 @@ class FicklingContextManager:
         wrapped_load = lambda file, *args, **kwargs: loader.load(  # noqa
             file, max_acceptable_severity=self.max_acceptable_severity
         )
+        # Remember every binding that fickling's hooks can replace, as it is when the context is
+        # entered, so that leaving the context restores exactly the protection in force on entry
+        self._saved_bindings = (pickle.load, pickle.loads, _pickle.load, _pickle.loads)
         hook.run_hook()
         return self
 
     def __exit__(self, exc_type, exc_val, exc_tb):
-        pickle.load = self.original_pickle_load
+        pickle.load, pickle.loads, _pickle.load, _pickle.loads = self._saved_bindings
 
 
 def check_safety():
